@@ -171,8 +171,13 @@ nothing; their witnesses live in `corpus/` or in the generators.
 
 ### 2.6 Tiers and cost
 
-`quick`: 5 s - 95 s per property (whole set about 8 minutes on 16 cores).  `thorough`: larger complete
-domains (documented per property in MANIFEST `level_claimed.text`), 5-10x more random cases.
+`quick`: 6 s - 120 s per property on an idle 16-core machine (whole set about 10 minutes; C13, C17 and C11 are the
+slowest), `setup.sh` (full `.vo` build plus `coqchk`) about 6 minutes more on a fresh copy.  `thorough`: larger complete
+domains (documented per property in MANIFEST `level_claimed.text`), 5-10x more random cases; one to three minutes for
+most properties, 20 - 35 minutes for C13, C17 and C18 (whole set about two and a half hours).  BLAS threads are limited
+to two per process by `check`; every `coqc` call carries its own time limit and a timed-out chunk of cases is bisected.
+The quick checks were additionally run under PRNG seeds 0 .. 8 on the unchanged tree (`VERIF_SEED`); the two alarms this
+raised were errors of the machinery and are described in section 6.
 Evidence files contain measured counts per sub-check (`coverage.parts`), samples, the theorem list and
 the `Print Assumptions` summary.
 
